@@ -162,6 +162,10 @@ func executeRequestModifiers(ctx context.Context, reqModifiers []func(interface{
 }
 
 func executeResponseModifiers(ctx context.Context, respModifiers []func(interface{}) (interface{}, error), r *Response, req RequestWrapper) (*Response, error) {
+	if r == nil {
+		// nothing to modify: hand the empty outcome through
+		return nil, nil
+	}
 	var tmp ResponseWrapper
 	tmp = responseWrapper{
 		ctx:        ctx,
